@@ -361,7 +361,7 @@ func H_C03_two_char_strings() {
 	verifBound("STRCHARS_PAIR", 2)
 	g := &hDocGen{}
 	t1, d1 := g.strChar()
-	menu := [][2]string{{"a", "a"}, {`\n`, "\n"}, {`\/`, "/"}, {`\u00E9`, "\u00e9"}, {`\uD83D\uDE00`, "\U0001F600"}, {"\u00e9", "\u00e9"}, {`\\`, "\\"}, {`\"`, "\""}}
+	menu := [][2]string{{"", ""}, {"a", "a"}, {`\n`, "\n"}, {`\/`, "/"}, {`\u00E9`, "\u00e9"}, {`\uD83D\uDE00`, "\U0001F600"}, {"\u00e9", "\u00e9"}, {`\\`, "\\"}, {`\"`, "\""}}
 	m := menu[nondetIntRange(0, len(menu)-1)]
 	var text, dec string
 	if nondetIntRange(0, 1) == 0 {
